@@ -9,7 +9,8 @@ Inductive cop :=
   | CInsert (au : N) (k : bytes) (hash len now : N)
   | CDelete (au : N) (k : bytes) (now : N)
   | CFlush
-  | CSnap.                                  (* a read through snapshot() / snapshot_owned(): list_namespaces, list_authors, get_many, content_hashes *)
+  | CSnap                                  (* a read through snapshot() / snapshot_owned(): list_namespaces, list_authors, get_many, content_hashes *)
+  | CFailingModify.                        (* a store call refused inside modify(): set_download_policy for a document that does not exist *)
 
 Record probe := mkProbe {
   p_op : N;                                 (* crash right after operation number p_op (from 0) ... *)
@@ -31,12 +32,13 @@ Definition entry_of (ns : N) (o : cop) : option entry :=
   | CRemote e => Some e
   | CInsert au k h l now => Some (mkE ns au k now l h)
   | CDelete au k now => Some (mkE ns au k now 0 EHASH)
-  | CFlush | CSnap => None
+  | CFlush | CSnap | CFailingModify => None
   end.
 (** local writes do not read the download policy afterwards *)
 Definition micro_of (ns : N) (T : tables) (o : cop) : list micro :=
   match o with
   | CFlush | CSnap => [MCommit]
+  | CFailingModify => [MModify (fun T => T)]     (* the closure fails: nothing is written, the transaction stays open *)
   | CRemote e => MTables (* open_replica *) :: put_micro KS EHASH T e
   | _ => match entry_of ns o with
          | Some e => MTables (* open_replica *) ::
